@@ -1,5 +1,6 @@
 import SR.Proofs.Checker.FullF
 import SR.Checker.FullSched
+import SR.Proofs.Checker.FullReplay
 import SR.Props.C01
 import SR.Props.C02
 /-!
@@ -123,6 +124,17 @@ theorem C05_full_verdicts (hinj : ∀ a b, P.M.Reach a → P.M.Reach b → P.key
   rw [hc] at hq he ⊢
   exact ⟨fun hexp => C02.C02_always P hinj _ ⟨hq, he⟩ i pr hpr hexp,
          fun hexp => C02.C02_sometimes P hinj _ ⟨hq, he⟩ i pr hpr hexp⟩
+
+/-- **The trace validator accepts only runs of the product.**  `SR/Drv/Full.lean` (driver command `tv`) replays the entries
+    recorded by the trace hooks during a real multi-threaded `spawn_bfs` / `spawn_dfs` run; if it accepts the trace, the
+    state it ends in is the state of a run `frun P k fs` of the concurrent checker — so the theorems above hold of the very
+    run that was observed (and its final counts and discoveries, which the check compares with what the checker reported,
+    are those of that run). -/
+theorem C05_trace_validation_sound (P : Params Nat Nat Nat) (k : Nat) (dfs : Bool) (es : List Drv.Full.Ev)
+    (tv : Drv.Full.TV)
+    (h : Drv.Full.replay P k dfs { x := finit P k, reason := [], pieces := [] } 1 es = .ok tv) :
+    ∃ fs : List FStep, tv.x = (frun P k fs).1 :=
+  Drv.Full.isRun_replay P k dfs es _ tv 1 (Drv.Full.isRun_refl P (finit P k)) h
 
 /-! ### Non-vacuity: concrete runs of the concurrent checker that reach "all workers gone" without a stop and without an
 early exit — 2 workers on the 5-state graph of `Props/C01.lean` (the round-robin scheduler of `Checker/FullSched.lean`:
